@@ -63,6 +63,23 @@ CLAIMED = {
         "The list of function-scoped settings was vetted against the code; CXX_this (class-level) and, on containers holding a class, the F_name_*_template options are excluded because the container consumes them itself.",
         "DESIGN.md section 3 C14",
     ),
+    "C15": (
+        "exhaustive enumeration of wrap-flag combinations, per-declaration override vectors and output-directory assignments; directory snapshot / file list / content oracles on real runs",
+        "All 12 admissible library-level wrap_c/fortran/python/lua combinations on three descriptions, all 3^3 override vectors for three functions per language under both library "
+        "defaults (flat and inside a namespace), and the 3^5 assignments of the five output-directory options (quick: those with at most two or all five set). Each run is "
+        "snapshotted before and after: a language that is off writes no file, C/Fortran files are byte-identical across Python/Lua toggles, --cfiles/--ffiles list exactly the "
+        "C/C++ and Fortran files written in this run, every file lies in its designated directory, and a function appears in a language's output iff its flag is on.",
+        "File kinds are recognised by name. The c_<name> bind(C) interface in the Fortran module belongs to the C wrapper (wrap_c); only the Fortran API name counts as Fortran output.",
+        "DESIGN.md section 3 C15",
+    ),
+    "C16": (
+        "exhaustive enumeration of the 32 option subsets (global and per declaration) with comment-stripped text equality of every generated file; corpus under each global option",
+        "Every subset of {debug, doxygen, show_splicer_comments, version stamping, literalinclude on declarations} flipped from its default, set globally and on every single "
+        "declaration, on three (thorough: four) descriptions, and each global option plus all together on the corpus: the set of files must be unchanged and every C/C++/Fortran/"
+        "Python-extension/Lua file must be identical after removing comments and blank lines.",
+        "Comment stripper: //, /* */, Fortran ! outside character literals. The *_types.yaml data file is not compared.",
+        "DESIGN.md section 3 C16",
+    ),
 }
 
 PENDING_REASON = "check not built yet in this round (planned, see DESIGN.md section 8); not claimed until it runs"
